@@ -8,6 +8,8 @@ mod util;
 mod c17_json;
 mod c18_vpl;
 mod c20_cache;
+mod indep;
+mod pmcorr;
 mod crash;
 mod c15_bbox;
 mod c04_recompress;
